@@ -25,8 +25,8 @@ from simkit.rng import seed_globals  # noqa: E402
 from simkit.world import InvalidScenario, Monitor, Violation, result, run_sim  # noqa: E402
 
 PROPERTY = "C11"
-RUNS = {"quick": 9000, "thorough": 1_500_000}
-WALL = {"quick": 42, "thorough": 1500}
+RUNS = {"quick": 4000, "thorough": 400_000}
+WALL = {"quick": 45, "thorough": 1500}
 BATCH = {"quick": 40, "thorough": 200}
 SELFTEST_RUNS = 8
 SHRINK_BUDGET_S = {"quick": 40.0, "thorough": 120.0}
@@ -35,7 +35,7 @@ RULE = (
     "per-message delays from 0.5% to 40% of the election timeout with stragglers/slow links), a client script (unique commands to "
     "the current self-believed leader or to a fixed node) and, except in the fault-free/liveness classes, a static fault schedule "
     "(partition incl. bridge/asymmetric, crash, pause, loss) plus reactive faults triggered by leader change / accepted command / "
-    "commit; classes: faulty, coarse (fine invariants only tagged), elections-only, single-candidate, fault-free, liveness; "
+    "commit; classes: faulty, coarse (= faulty, but the fine breaches of the three recorded defects are only tagged so the run goes on), elections-only, single-candidate, fault-free, liveness; "
     "non-trivial = a leader was elected and (fault classes) at least one fault window actually fired and (classes with clients) "
     "at least one command was committed; distinct = distinct delivery digests (time, event type, target) among non-trivial runs"
 )
@@ -78,8 +78,14 @@ EXPECTED_PROBES = [
     "fault.partition", "fault.crash", "fault.pause", "fault.loss", "fault.restart",
     "fault.msgs_dropped_by_partition", "fault.msgs_dropped_by_loss", "fault.stragglers",
 ]
-SHRINK_SKIP = ("n_nodes", "cmd", "node_et", "klass", "mode")
+SHRINK_SKIP = ("n_nodes", "cmd", "node_et", "klass", "mode", "tolerate")
 
+# fine breaches of the three recorded defects: tolerated (tagged, not raised) in the "coarse" class so that those runs go on
+KNOWN_FINE_TAGS = [
+    "vote-once-per-term:after-same-term-AppendEntries",
+    "match-index-le-matching-prefix:reported-own-last-index-beyond-appended",
+    "future-own-command:index-reused-after-truncation",
+]
 FAULT_CLASSES = ("faulty", "coarse", "elections-only", "single-candidate")
 MAX_REACTIVE = 10
 NEVER = 1.0e6   # election timeout of nodes that must never become candidates (single-candidate class)
@@ -119,12 +125,14 @@ def _gen_react(rng, n, et_min, et_max, hb, scale, with_clients):
 
 def gen(rng, tier):
     klass = rng.choices(["faulty", "coarse", "elections-only", "single-candidate", "fault-free", "liveness"],
-                        weights=[34, 14, 10, 12, 14, 16])[0]
+                        weights=[28, 22, 10, 10, 14, 16])[0]
     n = rng.choice([3, 3, 4, 5, 5])
     et_min = rng.choice([0.15, 0.3, 0.5, 1.0])
     sc = {"klass": klass, "mode": "coarse" if klass == "coarse" else "fine", "seed": rng.getrandbits(48),
           "net_seed": rng.getrandbits(48), "n_nodes": n, "faults": [], "react": [], "clients": [], "per_link": {},
           "restart_start": rng.random() < 0.6}
+    if klass == "coarse":
+        sc["tolerate"] = list(KNOWN_FINE_TAGS)
     if klass == "liveness":
         et_max = round(et_min * rng.uniform(2.0, 3.0), 6)
         hb = round(et_min * rng.choice([0.05, 0.1, 0.2, 0.3]), 6)
@@ -296,8 +304,9 @@ class Harness:
             nd._network = self.net          # build_mesh creates the Network after the nodes exist
             nd.set_peers(self.nodes)
         self.sim = Simulation(entities=[self.net, *self.nodes], end_time=Instant.from_seconds(sc["horizon"]))
-        self.oracle = RaftOracle(self.nodes, self.sms, self.net, fine_raises=sc.get("mode", "fine") != "coarse",
-                                 on_react=self.react)
+        tol = sc.get("tolerate", KNOWN_FINE_TAGS) if sc.get("mode", "fine") == "coarse" else ()
+        self.oracle = RaftOracle(self.nodes, self.sms, self.net, fine_raises=True,
+                                 tolerate=tol if tol == "*" else tuple(tol), on_react=self.react)
         self.mon = Monitor(self.sim, cap=int(sc["cap"]), invariant=self.oracle.after_delivery)
         self.fd = FaultDriver(self.net, self.nodes, self.links, [dict(f) for f in sc.get("faults", [])])
         self.rules = sc.get("react", [])
@@ -491,6 +500,8 @@ def run(sc):
     fired = h.fd.counters()
     counters.update(fired)
     counters["run.budget_exhausted"] = int(status == "budget")
+    if sig:
+        counters[f"run.stopped_by_violation.{sc.get('klass', 'faulty')}"] = 1
     counters["raft.leaders_elected"] = o.leader_events
     counters["raft.entries_committed"] = len(o.ledger)
     counters["raft.max_term"] = max(o.term)
